@@ -60,6 +60,7 @@ type Case struct {
 	Pending   []int    // calls still waiting on a healthy connection
 	Quiet     Event    // abstraction at quiescence, before the gates were opened
 	Aborted   string   // the harness faulted inside the case (not a verdict)
+	ListCorrupt bool
 	Leftover  string   // bubble panic text
 	Oracle    []string // violations of the external oracle, as stable keys
 	OracleMsg []string
@@ -135,17 +136,28 @@ func (k *Case) connState() string {
 	return "open"
 }
 
-// snapshot reads the client's bookkeeping; a corrupted request list (e.g. a recycled request still
-// linked) can make the accessor itself fault, which must not take the harness down: the verdict
-// comes from what the library then does with that list.
-func (k *Case) snapshot() (si *go9p.VerifClntInfo) {
+// SafeSnapshot reads the client's bookkeeping. The accessor walks the outstanding-request list the
+// way recv's tag search does (r.Tc.Tag); if a completed, recycled request (Tc == nil) is still
+// linked it faults while holding the client lock. That is reported (corrupt = true) and the lock
+// is given back so that the process can go on.
+func SafeSnapshot(clnt *go9p.Clnt) (si *go9p.VerifClntInfo, corrupt bool) {
 	defer func() {
 		if r := recover(); r != nil {
-			k.C.Notes = append(k.C.Notes, fmt.Sprint("VerifClntSnapshot faulted: ", r))
-			si = &go9p.VerifClntInfo{}
+			clnt.TryLock()
+			clnt.Unlock()
+			si, corrupt = &go9p.VerifClntInfo{}, true
 		}
 	}()
-	return go9p.VerifClntSnapshot(k.C.Clnt)
+	return go9p.VerifClntSnapshot(clnt), false
+}
+
+func (k *Case) snapshot() *go9p.VerifClntInfo {
+	si, corrupt := SafeSnapshot(k.C.Clnt)
+	if corrupt && !k.ListCorrupt {
+		k.ListCorrupt = true
+		k.viol("request-list-corrupt", "a completed (recycled) request is still linked in the client's outstanding-request list; recv's tag search dereferences its nil Tc")
+	}
+	return si
 }
 
 func (k *Case) post() Event {
